@@ -37,6 +37,8 @@ impl DailyMutations {
     }
 
     pub fn write(&self, conn: &Connection) -> std::result::Result<(), rusqlite::Error> {
+        #[cfg(discret_verif)]
+        crate::verif::fault_point("stmt_marks")?;
         let mut node_daily_stmt = conn.prepare_cached(
             "INSERT INTO _daily_log (
                     room_id,
@@ -61,6 +63,8 @@ impl DailyMutations {
                 }
             }
         }
+        #[cfg(discret_verif)]
+        crate::verif::fault_point("stmt_marks_end")?;
         Ok(())
     }
 }
@@ -76,6 +80,8 @@ impl DailyLogsUpdate {
     /// it makes mutations a slower when updating an old node but it makes room synchronisation between peers much easier
     ///
     pub fn compute(&mut self, conn: &Connection) -> Result<(), rusqlite::Error> {
+        #[cfg(discret_verif)]
+        crate::verif::fault_point("stmt_compute")?;
         let mut daily_log_stmt = conn.prepare_cached(
             " 
             SELECT room_id, entity, date, need_recompute, daily_hash, history_hash
